@@ -11,9 +11,9 @@ import (
 
 func init() {
 	register("C07", &propSpec{
-		level: "other",
+		level:       "other",
 		explanation: "Server robustness decided structurally for both receive loops and the handling cones: a packet whose decoding failed (other than an unknown extension name) is never handed to the dispatcher and a nil packet never is; on that path the connection is closed and Serve reports the error; on every exit the shutdown sequence close(pktChan) → workers joined → handle sweep runs, the dispatcher closes both worker channels, and a worker's response is queued before the barrier counter is released (so the join cannot wedge); no panic-capable instruction on request-derived data in the handling cones is left undischarged by the bounds prover (type assertions on attribute blobs, allocator page slicing), and decoded attributes are dereferenced only when decoding succeeded. 'Emitted responses are a prefix of the correct ones' and goroutine leaks in general are not decided.",
-		run: runC07,
+		run:         runC07,
 		assumptions: []string{"user handlers do not panic", "maxTxPacket is below 2^31 (WithMaxTxPacket has no upper bound; larger values are outside what the prover assumes)"},
 		extra:       []BuildConfig{cfgDebug},
 	})
@@ -417,6 +417,72 @@ func runC07(c *Ctx) {
 			}
 		}
 	}
+	checkJoinUnderLock(c, "R5")
+}
+
+// checkJoinUnderLock: a function that waits for goroutines (WaitGroup.Wait) must not hold a mutex that the
+// goroutines it waits for can acquire, or the stream's end wedges Serve with requests still in flight.
+// Held locks come from the lockset engine; "can acquire" = some function reachable (VTA) from a go statement
+// of the module locks the same mutex field.
+func checkJoinUnderLock(c *Ctx, rule string) {
+	p := c.P
+	var goRoots []*ssa.Function
+	for _, fn := range p.LibFuncs() {
+		eachInstr(fn, func(in ssa.Instruction) {
+			if g, ok := in.(*ssa.Go); ok {
+				if sc := g.Call.StaticCallee(); sc != nil {
+					goRoots = append(goRoots, sc)
+				} else {
+					goRoots = append(goRoots, p.calleesAt(g)...)
+				}
+			}
+		})
+	}
+	workerLocks := map[string]*ssa.Function{}
+	for fn := range p.cone(goRoots...) {
+		ls, _ := lockCallsIn(fn)
+		for _, l := range ls {
+			if workerLocks[l.Key] == nil {
+				workerLocks[l.Key] = fn
+			}
+		}
+		// deferred and plain alike
+		eachInstr(fn, func(in ssa.Instruction) {
+			if cc := callOf(in); cc != nil {
+				if op, _, key, ok := mutexOp(cc); ok && (op == "Lock" || op == "RLock") && workerLocks[key] == nil {
+					workerLocks[key] = fn
+				}
+			}
+		})
+	}
+	n := 0
+	for _, fn := range p.LibFuncs() {
+		if !isServerSide(fn) {
+			continue
+		}
+		ord := 0
+		eachInstr(fn, func(in ssa.Instruction) {
+			cc := callOf(in)
+			if cc == nil || !isWGCall(cc, "Wait") {
+				return
+			}
+			if _, plain := in.(*ssa.Call); !plain {
+				return
+			}
+			n++
+			ord++
+			key := fmt.Sprintf("%s: join #%d", fnName(fn), ord)
+			locks, _ := lockCallsIn(fn)
+			held := ""
+			for _, l := range locks {
+				if heldAt(in, l.Root, l.Key) != "" && workerLocks[l.Key] != nil {
+					held = l.Key + " (acquired by " + fnName(workerLocks[l.Key]) + ")"
+				}
+			}
+			c.check(held == "", rule, key, p.Pos(in.Pos()), "no lock that a worker needs is held while waiting for the workers", "Wait() is called while holding "+held+": a worker that still needs the lock blocks for ever and Serve never returns")
+		})
+	}
+	c.check(n >= 2, rule, "join points on the server side", "?", fmt.Sprintf("%d WaitGroup.Wait sites", n), fmt.Sprintf("only %d WaitGroup.Wait sites found on the server side", n))
 }
 
 // storeCellOf: the local variable cell that v is stored into (if any).
